@@ -1,10 +1,11 @@
 /-
 Extra — hand-written model-side entry points of the line protocol that the generated dispatch table does
-not cover (generic code: `Iterator::sum`).
+not cover (generic code: `Iterator::sum`, `NumCast::from`).
 -/
 import TFV.Gen
 import TFV.Prelude.IO
 import TFV.Hand.Serde
+import TFV.Hand.NumCast
 
 namespace Extra
 open IOFmt
@@ -57,6 +58,20 @@ def run (op : String) (a : Array String) : Option String :=
     -- `fmt_shape lo rhi rlo` (renderings contain no blanks)
     if a.size < 3 then none else
     some ("\"" ++ Hand.fmtShape a[1]! a[2]! (rdF64 a[0]!) ++ "\"")
+  -- `<TwoFloat as NumCast>::from(n)`: `numcast.<int type> n` (the model is the same function of the value for every primitive integer type), `numcast.f64 x`, `numcast.f32 x`
+  | "numcast.i8" | "numcast.i16" | "numcast.i32" | "numcast.i64" | "numcast.i128" | "numcast.isize"
+  | "numcast.u8" | "numcast.u16" | "numcast.u32" | "numcast.u64" | "numcast.u128" | "numcast.usize" =>
+    if a.size < 1 then none else
+    let n := Hand.ToPrim.ofInt (parseInt a[0]!)
+    some (if Hand.numCastFrom.pf n then wr_opttf (Hand.numCastFrom n) else "PANIC")
+  | "numcast.f64" =>
+    if a.size < 1 then none else
+    let n := Hand.ToPrim.ofF64 (rdF64 a[0]!)
+    some (if Hand.numCastFrom.pf n then wr_opttf (Hand.numCastFrom n) else "PANIC")
+  | "numcast.f32" =>
+    if a.size < 1 then none else
+    let n := Hand.ToPrim.ofF32 (rdF32 a[0]!)
+    some (if Hand.numCastFrom.pf n then wr_opttf (Hand.numCastFrom n) else "PANIC")
   | _ => none
 
 end Extra
